@@ -451,6 +451,8 @@ HAND_SCOPE = [
     'def f():\n    def g(): return n\n    n = 5\n    return g()\n',
     'class K:\n    a = 1\n    def m(self): return a\n',
     'def f(a, /, b, *c, d, **e):\n    return (a, b, c, d, e, x)\n',
+    'def f():\n    import os.path\n    return os.path.sep\n',
+    'class A:\n    import os.path, m.x as y\n    s = (os, y)\n',
     'def f():\n    import os.path as p, sys\n    from os import sep\n    return (p, sys, sep, os)\n',
     'def f():\n    for i, (j, *k) in z:\n        pass\n    return (i, j, k)\n',
     'def f():\n    x = [a for a in b if a for c in a]\n    return (x, a, b, c)\n',
@@ -733,18 +735,39 @@ def compare_model(cases, res):
 
 def _sym_tree(t):
     """canonical per-scope summary of a symtable: (kind, name, names referenced as globals, children)"""
+    import _symtable as _st
     kind = 'module' if t.get_type() == 'module' else ('class' if t.get_type() == 'class' else 'function')
-    if kind == 'module':
-        gl = sorted(s.get_name() for s in t.get_symbols() if s.is_referenced())
-    else:
-        gl = sorted(s.get_name() for s in t.get_symbols() if s.is_referenced() and s.is_global())
+    # (the raw flags: Symbol.is_global() of Lib/symtable.py takes any table *named* "top" for the module)
+    gl = []
+    for name, flags in t._table.symbols.items():
+        scope = (flags >> _st.SCOPE_OFF) & _st.SCOPE_MASK
+        if flags & _st.USE and (kind == 'module' or scope in (_st.GLOBAL_IMPLICIT, _st.GLOBAL_EXPLICIT)):
+            gl.append(name)
+    gl.sort()
     return [kind, t.get_name(), gl, sorted(_sym_tree(c) for c in t.get_children())]
 
 
 def _canon_tree(w):
     """the Lean ScopeTree answer in the same canonical form (names de-duplicated and sorted)"""
     kind, name, gl, ch = w
-    return [str(kind), str(name), sorted(set(str(g) for g in gl)), sorted(_canon_tree(c) for c in ch)]
+    name = 'genexpr' if str(name) == 'listcomp' else str(name)
+    return [str(kind), name, sorted(set(str(g) for g in gl)), sorted(_canon_tree(c) for c in ch)]
+
+
+class _ListCompAsGenExp(ast.NodeTransformer):
+    """CPython 3.12 merges the symbol table of a list comprehension into the enclosing one (PEP 709); the
+    scoping rules of list comprehensions and generator expressions are the same, so the tables are taken
+    from the program with every list comprehension written as a generator expression"""
+
+    def visit_ListComp(self, node):
+        self.generic_visit(node)
+        return ast.GeneratorExp(node.elt, node.generators)
+
+
+def symtable_tree(tree):
+    import symtable
+    src = ast.unparse(ast.fix_missing_locations(_ListCompAsGenExp().visit(copy.deepcopy(tree))))
+    return _strip_implicit(_sym_tree(symtable.symtable(src, '<s>', 'exec')))
 
 
 def _strip_implicit(t):
@@ -786,17 +809,22 @@ def compare_xformS(cases, res):
         if has_atom(w, STMT_OUTSIDE):
             res.count('xformS:outside-syntax')
             continue
+        if len(c['src']) > 6000:
+            res.count('xformS:skipped-large')       # (a whole stdlib class: the cost is in the wire coding)
+            continue
         try:
-            real = [G.to_wire(st) for st in TemplateASTTransformer().visit(copy.deepcopy(tree)).body]
+            sym = symtable_tree(tree)
+        except (SyntaxError, ValueError, RecursionError):
+            sym = None
+        try:
+            # (the transformer shares / updates some nodes of its input: `w` and `sym` were taken before)
+            real = [G.to_wire(st) for st in TemplateASTTransformer().visit(tree).body]
         except RecursionError:
             res.count('xformS:recursion-limit')
             continue
-        try:
-            sym = _strip_implicit(_sym_tree(symtable.symtable(c['src'], '<s>', 'exec')))
-        except (SyntaxError, ValueError, RecursionError):
-            sym = None
-        for verb in ('xformS', 'specS', 'unxformS', 'scopes'):
-            lines.append(proto.line(Atom('C13'), Atom(verb), w))
+        wtext = proto.enc(w)
+        for verb in ('xformS', 'pySpecS', 'unxformS', 'freeGlobals'):
+            lines.append('C13 %s %s' % (verb, wtext))
             meta.append((verb, c, w, real, sym))
     answers = proto.run_lines(lines)
     for (verb, c, w, real, sym), ans in zip(meta, answers):
@@ -808,7 +836,7 @@ def compare_xformS(cases, res):
             continue
         model = proto.dec(ans)
         res.streams[verb] = res.streams.get(verb, 0) + 1
-        if verb in ('xformS', 'specS'):
+        if verb in ('xformS', 'pySpecS'):
             changed = model[1] != w
             res.count('%s:%s' % (verb, 'rewrites' if changed else 'identity'))
             if changed and verb == 'xformS':
@@ -821,10 +849,10 @@ def compare_xformS(cases, res):
                 res.disagreements.append({'stream': verb, 'case': c, 'model': repr(model[1])[:900], 'real': repr(w)[:900]})
         else:
             if sym is None:
-                res.count('scopes:no-symtable')
+                res.count('freeGlobals:no-symtable')
                 continue
             spec = _canon_tree(model[1])
-            res.count('scopes:ok')
+            res.count('freeGlobals:ok')
             if spec != sym:
                 res.disagreements.append({'stream': 'freeGlobals-vs-symtable', 'case': c, 'model': repr(spec)[:900], 'real': repr(sym)[:900]})
 
@@ -893,6 +921,25 @@ def shard(arg):
         if st == 'bad':
             res.failures.append(oracle_scope(sc))
     compare_model(cases + corpus, res)
+    # statement mode of the transformer: model, Python's scoping rule, symtable
+    sgen = G.ScopeGen(rng)
+    scope_cases = []
+    for _ in range(max(20, n_stmt)):
+        src = G.unparse_ok(sgen.program(), 'exec')
+        if src is not None:
+            scope_cases.append({'mode': 'exec', 'src': src, 'via': 'scope'})
+    for sc in scope_cases[:max(10, n_stmt // 2)]:
+        # the scope oracle (code objects of the real code vs CPython's own compilation) on the same programs
+        res.evaluations += 1
+        try:
+            st, problems = scope_problems(sc['src'])
+        except RecursionError:
+            continue
+        res.count('scope:' + st)
+        if st == 'bad':
+            res.failures.append(oracle_scope(sc))
+    compare_xformS(scope_cases + [c for c in cases if c['mode'] == 'exec'] + corpus
+                   + [{'mode': 'exec', 'src': s_, 'via': 'scope'} for s_ in scope_srcs[-n_eff:] + HAND_SCOPE], res)
     return res
 
 
